@@ -69,6 +69,9 @@ type TestSpec struct {
 	Arg  *Val   `json:"arg,omitempty"`
 	Args []Val  `json:"args,omitempty"`
 	Opts Opts   `json:"opts,omitempty"`
+	// AsValue ("func" tests): built as a reusable z.TestFunc value without options; the schema gets a COPY of that
+	// value specialised by field assignment (IssueCode, IssuePath, Params, IssueFmtFunc) through schema.Test(t)
+	AsValue bool `json:"asValue,omitempty"`
 }
 
 // PostSpec describes one PostTransform recorder.
@@ -207,10 +210,11 @@ type testWire struct {
 	Arg  *Val   `json:"arg,omitempty"`
 	Args []Val  `json:"args,omitempty"`
 	Opts Opts   `json:"opts,omitempty"`
+	AsV  bool   `json:"asValue,omitempty"`
 }
 
 func (t TestSpec) MarshalJSON() ([]byte, error) {
-	w := testWire{Name: t.Name, Not: t.Not, N: t.N, Str: t.Str, Arg: t.Arg, Args: t.Args, Opts: t.Opts}
+	w := testWire{Name: t.Name, Not: t.Not, N: t.N, Str: t.Str, Arg: t.Arg, Args: t.Args, Opts: t.Opts, AsV: t.AsValue}
 	if !utf8.ValidString(t.Str) {
 		w.Str, w.XStr = "", hex.EncodeToString([]byte(t.Str))
 	}
@@ -222,7 +226,7 @@ func (t *TestSpec) UnmarshalJSON(b []byte) error {
 	if err := json.Unmarshal(b, &w); err != nil {
 		return err
 	}
-	*t = TestSpec{Name: w.Name, Not: w.Not, N: w.N, Str: w.Str, Arg: w.Arg, Args: w.Args, Opts: w.Opts}
+	*t = TestSpec{Name: w.Name, Not: w.Not, N: w.N, Str: w.Str, Arg: w.Arg, Args: w.Args, Opts: w.Opts, AsValue: w.AsV}
 	if w.XStr != "" {
 		raw, err := hex.DecodeString(w.XStr)
 		if err != nil {
